@@ -24,11 +24,13 @@ ap.add_argument("x")
 ap.add_argument("--tier", default="quick")
 ap.add_argument("--also", default="")
 ap.add_argument("--src", default=None)
+ap.add_argument("--label", default=None, help="name of the stored copy: /verif/seeded/CNN-<label> (default: x)")
 ap.add_argument("--nproc", default=os.environ.get("VERIF_NPROC", ""))
 a = ap.parse_args()
 pid, x = a.pid.upper(), a.x
 src = a.src or f"/tmp/seed-{pid}"
-stored = f"/verif/seeded/{pid}-{x}"
+label = a.label or x
+stored = f"/verif/seeded/{pid}-{label}"
 patch = os.path.join(src, f"patch_{x}.diff")
 demo = os.path.join(src, f"demo_{x}.py")
 metaf = os.path.join(src, f"meta_{x}.json")
@@ -39,7 +41,7 @@ try:
     meta = json.load(open(metaf))
 except Exception as e:  # noqa: BLE001
     meta = {"property": pid, "summary": f"(meta unreadable: {e})"}
-res = {"property": pid, "variant": x, "evaluated_at_repo_head": subprocess.run(
+res = {"property": pid, "variant": a.label or x, "evaluated_at_repo_head": subprocess.run(
     ["git", "-C", "/repo", "rev-parse", "--short", "HEAD"], capture_output=True, text=True).stdout.strip()}
 
 
@@ -106,5 +108,5 @@ out["what_was_run"] = ("scratch copy of /repo + patch; repo suite with PYTHONPAT
                        "./check <ID> with VERIF_REPO=<copy> (tools/eval_seed.py)")
 json.dump(out, open(os.path.join(stored, "meta.json"), "w"), indent=1)
 c = res.get("checks", {})
-print(f"SEED {pid}-{x}: applies={res.get('applies')} suite_passes={res.get('suite_passes')} demo_ok={res.get('demo_ok')} "
+print(f"SEED {pid}-{label}: applies={res.get('applies')} suite_passes={res.get('suite_passes')} demo_ok={res.get('demo_ok')} "
       + " ".join(f"{k}={'CAUGHT' if v['caught'] else ('HARNESS' if v['harness_error'] else 'MISSED')}({v['wall_s']}s)" for k, v in c.items()))
